@@ -18,7 +18,7 @@
    the decoder is used (the crypttext hash tree decides). *)
 From Coq Require Import List ZArith NArith Bool.
 From Verif Require Import Gen.ImmConsts Model.HashTree Model.ImmFile Model.ImmVerify
-  Proofs.ImmFileRead Proofs.ImmVerifyTree Proofs.ImmVerify Proofs.ImmVerifyRead Proofs.ImmVerifySym Proofs.ImmCheckRepair.
+  Proofs.ImmFileRead Proofs.ImmVerifyTree Proofs.ImmVerify Proofs.ImmVerifyComplete Proofs.ImmVerifyRead Proofs.ImmVerifySym Proofs.ImmCheckRepair.
 Import ListNotations.
 Local Open Scope Z_scope.
 
@@ -103,6 +103,31 @@ Theorem initial_node_ok :
              (node_init H (g_cap H pair_hash empty_leaf block_hash seg_hash UB ueb_hash ser_ueb key f)).
 Proof. exact node_init_inv. Qed.
 Print Assumptions initial_node_ok.
+
+(* The other direction, on a new node: every block of every share the uploader wrote (with an offset
+   table that passes Share._satisfy_offsets) is accepted, through all the stages, whatever the
+   set.pop() orders.  (The theorems above are therefore not vacuous, and a correct tree is not refused.) *)
+Theorem genuine_block_accepted_on_new_node :
+  forall (H : Type) (H_eqb : H -> H -> bool) (pair_hash : H -> H -> H) (truthy : H -> bool) (empty_leaf : Z -> H)
+         (block_hash seg_hash : list N -> H) (UB : Type) (ueb_hash : UB -> H) (parse_ueb : UB -> option (ueb H))
+         (ser_ueb : ueb H -> UB),
+    (forall a b, H_eqb a b = true <-> a = b) ->
+    (forall h, truthy h = true) ->
+    (forall u, parse_ueb (ser_ueb u) = Some u) ->
+  forall (f : efile) (key : list N), ef_wf f ->
+  let c := g_cap H pair_hash empty_leaf block_hash seg_hash UB ueb_hash ser_ueb key f in
+  forall (ver : N) (o : offsets) (i j : Z) (ords : nat -> list Z),
+    check_offsets H UB (g_share H pair_hash empty_leaf block_hash seg_hash UB ser_ueb f ver o i) = None ->
+    0 <= i < Z.of_N (ef_n f) -> 0 <= j < nseg f ->
+    exists dn',
+      get_block H H_eqb pair_hash truthy block_hash UB ueb_hash parse_ueb c (node_init H c) i j
+                (g_share H pair_hash empty_leaf block_hash seg_hash UB ser_ueb f ver o i) ords
+      = (dn', GBlock (gblock f i j)).
+Proof.
+  intros H H_eqb pair_hash truthy empty_leaf block_hash seg_hash UB ueb_hash parse_ueb ser_ueb He Ht Hps f key Hwf c.
+  exact (new_node_accepts_genuine_block H H_eqb pair_hash truthy empty_leaf block_hash seg_hash UB ueb_hash parse_ueb ser_ueb He Ht Hps f key Hwf).
+Qed.
+Print Assumptions genuine_block_accepted_on_new_node.
 
 (* read(offset, size) of a file encoded with (k, n, segsize): for every plan of shares to try,
    every share content and every pop order, the chunks written to the consumer before the read
